@@ -206,6 +206,7 @@ fn model_declines_tree(imp: &str) -> bool {
         let body = &rest[k + 7..];
         let end = body.find('"').unwrap_or(body.len());
         let d = &body[..end];
+        if d.starts_with("Graph {") { rest = &body[end..]; continue; }      // a graph literal: modelled
         let inner = d.trim_start_matches('[').trim_end_matches(']');
         let ok = d.starts_with('[') && d.ends_with(']') && !inner.contains('[')
             && (inner.is_empty() || inner.split(", ").all(|x| !x.is_empty() && x.chars().all(|c| c.is_ascii_digit()))
@@ -454,7 +455,13 @@ pub fn generate(seed: u64, n: usize, thorough: bool, corpus: Option<&str>) -> Ve
     //     USED by the program, and the graph VALUE of parse(format(s)) is compared with that of parse(s)
     for body in ["A -> [B: 0], B", "A -> [B: 0, C: -2, D: 1.5, E], B -> [A], C, D, E", "A -> [B], B -> [A: 0]", "A -> [B: -0.5, C: 0.0], B, C",
                  "A -> [B: 1, C: 1.0], B -> [C: 100000000000000000000], C", "A -> [B: 0.000001], B -> [A: -0], C", "A, B, C", "A -> [A: 0]",
-                 "A -> [B: 2, C], B -> [C: 0, A: 3], C -> [A: -1]", "A -> [], B", "A -> [B: 9007199254740993], B", ""] {
+                 "A -> [B: 2, C], B -> [C: 0, A: 3], C -> [A: -1]", "A -> [], B", "A -> [B: 9007199254740993], B", "",
+                 // a graph of isolated nodes can only be written with a leading comma (`Graph { A, B }` is read as a block function)
+                 ", A, B", ", A", ", A -> [B,], B", "A -> [B,], B", ", A, B -> [A]",
+                 // parallel edges (an error of the AST builder), and shapes the PEG refuses
+                 "A -> [B, B]", "A -> [B: 1, C, B: 2], B, C", "A -> [B], B -> [A, C, A]", "A -> [B:], B", "A -> B", "A_1 -> [B]", "A -> [,]",
+                 "A -> [\n B]", "A ->\n [B]", "A -> [B], B,", "_ -> [A]", "A -> [_]", "\\x_1 -> [A]", "A -> [B: 1 2]", "A -> [B: x]", "A -> [B: -1.5, C: - 2]",
+                 "$a -> [_b: 3, $_c], _b, $_c", "min -> [in: 1], in", "A -> [B:1,C:2,], B, C", "A -> [B: 1.50, C: 007, D: 0.0, E: -0.0], B, C, D, E", "A, A, A -> [A]"] {
         for g in [format!("Graph {{ {} }}", body), format!("Graph {{\n        {}\n    }}", body.replace(", ", ",\n        "))] {
             push(format!("min sum((u, v, c) in edges(G)) {{ c * x_u_v }}\ns.t.\n    x_u_v >= 1 for (u, v) in edges(G)\nwhere\n    let G = {}\ndefine\n    x_u_v as Real for (u, v) in edges(G)\n", g), "graph-literals", &mut cases);
             push(format!("max y\ns.t.\n    y <= sum((u, v, c) in edges(G)) {{ c }} + len(nodes(G))\n    y <= sum(e in neigh_edges_of(\"A\", G)) {{ 1 }}\nwhere\n    let G = {}\ndefine\n    y as Real\n", g), "graph-literals", &mut cases);
@@ -467,6 +474,21 @@ pub fn generate(seed: u64, n: usize, thorough: bool, corpus: Option<&str>) -> Ve
                             ("sum(__k in 0..2) { 2 x_1_{__k} }", "c_{__k}: x_1_{__k} >= 1 for __k in 0..2", "x_1_{__k} as NonNegativeReal for __k in 0..2"),
                             ("x__1 + x_i", "x__1 >= 1", "x__1, x_i as Real")] {
         push(format!("min {}\ns.t.\n    {}\nwhere\n    let i = 0\ndefine\n    {}\n", obj, con, dom), "printer-edges", &mut cases);
+    }
+
+    // --- escaped names (`\\x_1`: the variable whose NAME has inner underscores) in every position a variable can take
+    for (obj, cons, dom) in [
+        ("\\x_1 + 2 \\y_a_2", "\\cap_1: \\x_1 + \\y_a_2 >= 1\n    \\x_1 <= 3", "\\x_1, \\y_a_2 as Real"),
+        ("3\\x_1 - (\\x_1 + z) * 2", "z >= -\\x_1\n    not \\b_1 or \\b_2", "\\x_1, z as NonNegativeReal(0, 10)\n    \\b_1, \\b_2 as Boolean"),
+        ("min { \\x_1, 2 } + sum(i in 0..2) { i * \\x_1 }", "\\x_1 >= abs { z } for i in 0..2", "\\x_1 as IntegerRange(0, 5)\n    z as Real"),
+        ("z_{\\k_1} + z_{\\k_1}_2 + a[\\k_1]", "c_{\\k_1}: z_1 >= 1", "z_1, \\k_1 as Real"),
+        ("\\total_a_12 / 2", "\\for_1 >= 1\n    \\Total_A_b <= \\total_a_12", "\\total_a_12, \\for_1, \\Total_A_b as Real"),
+        ("\\x_1", "\\x_1 >= 1", "\\x_1 as Real(\\lo_1, 4)\n    \\lo_1 as Real"),
+        ("2(\\x_1)(\\y_2)", "\\x_1 \\y_2 >= 1", "\\x_1, \\y_2 as Real"),
+        ("\\x_1[0]", "\\x_1 >= 1", "\\x_1 as Real"), ("\\x_1.5", "\\x_1 >= 1", "\\x_1 as Real"), ("\\x_{i}", "z >= 1", "z as Real"),
+        ("\\_x_1", "z >= 1", "z as Real"), ("\\x__1", "z >= 1", "z as Real"), ("\\x_1_", "z >= 1", "z as Real"), ("\\ x_1", "z >= 1", "z as Real"),
+        ("\\x_1 (2)", "z >= 1", "z as Real"), ("\\x_1 { 2 }", "z >= 1", "z as Real"), ("\\é_1 + \\x_é2", "z >= 1", "z as Real")] {
+        push(format!("min {}\ns.t.\n    {}\ndefine\n    {}\n", obj, cons, dom), "escaped-names", &mut cases);
     }
 
     // --- MALFORMED programs, by class: every error of the AST builders at every position of a program, pairs of errors
